@@ -665,6 +665,13 @@ W_U = ("natoms 2\ntemperature 300.0\nnew\nconfig EOF\n" + XE + HARM % ("h", "  w
        "pos 1 0 0 1.0\nstep\ndumpdeps\nscript cv bias h delete\ndumpdeps\npos 1 0 0 1.5\nstep\necho END\n")
 
 
+# F8 (repair on fix-C13-4: "fix: a restraint with outputAccumulatedWork switched on by script could not read the state it had
+# written"): the state written by a session must be readable by it
+F8 = "script-set-accumulated-work-state-unreadable"
+W_F8 = ("natoms 2\nnew\nconfig EOF\n" + XZ + HARM % ("h", "") + "EOF\nscriptset bias h 6 1\npos 1 0 0 1.0\nstep\n"
+        "save text w8.colvars.state\nload w8\nsave binary w8b.colvars.state\nload w8b\npos 1 0 0 2.0\nstep\necho END\n")
+
+
 # N: default names.  Two unnamed harmonic restraints (harmonic1, harmonic2), the older one deleted, a third defined: it must not
 # take the name of the survivor; then the survivor is deleted BY NAME: exactly the third one must remain
 HARM_U = "harmonic {\n  colvars x\n  centers %s\n  forceConstant 2.0\n}\n"
@@ -730,6 +737,14 @@ def replay_witnesses(run, unit, d, tabs, model):
         if "err=ok" not in (A or [""])[0] or not obs_equal(A, B):
             run.violation(F7 + ":observables", "switching scaledBiasingForce on by script (no map) changes the step results: %s instead of %s" % (A, B),
                           {"kind": "identity", "scenario": W_F7, "reference": W_F7_REF})
+    # F8: a fixed restraint with output_accumulated_work enabled by script writes a state that it reads back
+    rc, o, e = run_scn(unit, d, W_F8)
+    run.count("witness:F8", True)
+    loads = [l for l in o.split("\n") if l.startswith("LOAD")]
+    if "echo END" not in o or len(loads) != 2 or any("err=ok" not in l for l in loads):
+        run.violation(F8, "harmonic h (fixed centers), `cv bias h set \"output_accumulated_work\" 1`, a step, state written and read back: %s "
+                      "(set_state_params requires the keyword accumulatedWork, get_state_params writes it only for moving restraints)" % " | ".join(loads),
+                      {"kind": "scenario", "scenario": W_F8})
     # N: default names of unnamed biases stay distinct; deletion by name hits the right object
     rc, o, e = run_scn(unit, d, W_N)
     dumps = D.parse_deps_blocks(o.split("\n"))
